@@ -473,6 +473,15 @@ func main() {
 			}
 		}
 	}
+	// C13: where cached models are stored and handed out
+	stores, escapes, shallowUsers := cloneFacts(*repo)
+	b.WriteString("/-- assignments `r.cache[k] = e` in package cache whose right-hand side is not model.Clone(...) -/\n")
+	b.WriteString("def cacheStoresUncloned : List String := [" + quoteAll(stores) + "]\n\n")
+	b.WriteString("/-- functions of package cache in which a model read from `r.cache` is returned, put into a returned\n    collection or appended without passing through model.Clone -/\n")
+	b.WriteString("def cacheRawEscapes : List String := [" + quoteAll(escapes) + "]\n\n")
+	b.WriteString("/-- functions of package client that call RowsShallow, with whether they clone what they keep -/\n")
+	b.WriteString("def clientShallowUsers : List (String × Bool) := [" + strings.Join(shallowUsers, ", ") + "]\n\n")
+	summary["cache_raw_escapes"] = len(escapes)
 	b.WriteString("end Ovsdb.Generated\n")
 	if *out != "" {
 		os.MkdirAll(*out, 0o755)
@@ -485,6 +494,153 @@ func main() {
 	}
 	j, _ := json.Marshal(summary)
 	fmt.Println(string(j))
+}
+
+// isCacheIndex: r.cache[...] (the row map of a RowCache)
+func isCacheIndex(e ast.Expr) bool {
+	ix, ok := e.(*ast.IndexExpr)
+	if !ok {
+		return false
+	}
+	sel, ok := ix.X.(*ast.SelectorExpr)
+	return ok && sel.Sel.Name == "cache"
+}
+
+func isCloneCall(e ast.Expr) bool {
+	c, ok := e.(*ast.CallExpr)
+	if !ok {
+		return false
+	}
+	sel, ok := c.Fun.(*ast.SelectorExpr)
+	if !ok {
+		return false
+	}
+	id, ok := sel.X.(*ast.Ident)
+	return ok && id.Name == "model" && (sel.Sel.Name == "Clone")
+}
+
+func cloneFacts(repo string) (stores, escapes, shallowUsers []string) {
+	fset := token.NewFileSet()
+	f, err := parser.ParseFile(fset, filepath.Join(repo, "cache", "cache.go"), nil, parser.ParseComments)
+	if err != nil {
+		fmt.Fprintln(os.Stderr, err)
+		os.Exit(1)
+	}
+	for _, d := range f.Decls {
+		fd, ok := d.(*ast.FuncDecl)
+		if !ok || fd.Body == nil || fd.Recv == nil {
+			continue
+		}
+		recvT := ""
+		t := fd.Recv.List[0].Type
+		if st, ok := t.(*ast.StarExpr); ok {
+			t = st.X
+		}
+		if id, ok := t.(*ast.Ident); ok {
+			recvT = id.Name
+		}
+		if recvT != "RowCache" {
+			continue
+		}
+		name := recvT + "." + fd.Name.Name
+		raw := map[string]bool{}
+		escaped := false
+		ast.Inspect(fd.Body, func(n ast.Node) bool {
+			switch st := n.(type) {
+			case *ast.AssignStmt:
+				// stores
+				for i, l := range st.Lhs {
+					if isCacheIndex(l) && i < len(st.Rhs) && !isCloneCall(st.Rhs[i]) {
+						stores = append(stores, fmt.Sprintf("%s:%d", name, fset.Position(st.Pos()).Line))
+					}
+				}
+				// v := r.cache[k] / v, ok := r.cache[k]
+				if len(st.Rhs) == 1 && isCacheIndex(st.Rhs[0]) {
+					if id, ok := st.Lhs[0].(*ast.Ident); ok && id.Name != "_" {
+						raw[id.Name] = true
+					}
+				}
+				// X[...] = rawIdent (X not the row map itself)
+				for i, l := range st.Lhs {
+					if _, isIdx := l.(*ast.IndexExpr); isIdx && !isCacheIndex(l) && i < len(st.Rhs) {
+						if id, ok := st.Rhs[i].(*ast.Ident); ok && raw[id.Name] {
+							escaped = true
+						}
+						if isCacheIndex(st.Rhs[i]) {
+							escaped = true
+						}
+					}
+				}
+			case *ast.RangeStmt:
+				if sel, ok := st.X.(*ast.SelectorExpr); ok && sel.Sel.Name == "cache" {
+					if id, ok := st.Value.(*ast.Ident); ok && id.Name != "_" {
+						raw[id.Name] = true
+					}
+				}
+			case *ast.ReturnStmt:
+				for _, e := range st.Results {
+					if id, ok := e.(*ast.Ident); ok && raw[id.Name] {
+						escaped = true
+					}
+					if isCacheIndex(e) {
+						escaped = true
+					}
+				}
+			case *ast.CallExpr:
+				if id, ok := st.Fun.(*ast.Ident); ok && id.Name == "append" {
+					for _, a := range st.Args[1:] {
+						if aid, ok := a.(*ast.Ident); ok && raw[aid.Name] {
+							escaped = true
+						}
+					}
+				}
+			}
+			return true
+		})
+		if escaped {
+			escapes = append(escapes, name)
+		}
+	}
+	sort.Strings(stores)
+	sort.Strings(escapes)
+	// users of RowsShallow outside the cache package
+	for _, pkg := range []string{"client", "server", "database/inmemory", "database/transaction", "updates"} {
+		pkgs, err := parser.ParseDir(fset, filepath.Join(repo, pkg), func(fi os.FileInfo) bool { return !strings.HasSuffix(fi.Name(), "_test.go") }, 0)
+		if err != nil {
+			continue
+		}
+		for _, p := range pkgs {
+			var files []string
+			for n := range p.Files {
+				files = append(files, n)
+			}
+			sort.Strings(files)
+			for _, fn := range files {
+				for _, d := range p.Files[fn].Decls {
+					fd, ok := d.(*ast.FuncDecl)
+					if !ok || fd.Body == nil {
+						continue
+					}
+					uses, clones := false, false
+					ast.Inspect(fd.Body, func(n ast.Node) bool {
+						if c, ok := n.(*ast.CallExpr); ok {
+							if sel, ok := c.Fun.(*ast.SelectorExpr); ok && sel.Sel.Name == "RowsShallow" {
+								uses = true
+							}
+							if isCloneCall(c) {
+								clones = true
+							}
+						}
+						return true
+					})
+					if uses && pkg == "client" { // the package that hands models to the application
+						shallowUsers = append(shallowUsers, fmt.Sprintf("(%q, %v)", pkg+"."+fd.Name.Name, clones))
+					}
+				}
+			}
+		}
+	}
+	return
 }
 
 func quoteAll(xs []string) string {
